@@ -247,6 +247,23 @@ def run(ctx: Ctx):
                      f"message whose last bytes arrive in a short read stays undelivered until more "
                      f"data comes, which on an idle link is never")
 
+    # ------------------------------------------------------------------ R8
+    ctx.rule("C05-R8", "a header is only parsed after the buffer length has been compared with "
+                       "the header size since the last change of the buffer", floor=2)
+    thr_nodes = [n for n in g.nodes if n.kind == "test" and isinstance(n.ast, ast.Compare)
+                 and any(ast.unparse(x) == lenbuf for x in [n.ast.left] + n.ast.comparators)
+                 and hsize in [model.try_fold(x, peer, pc) for x in [n.ast.left] + n.ast.comparators]]
+    for n in buf_stores:
+        cons = f"work_read_queue:length-check-before-header@{_tag(g, n)}"
+        ctx.inst(cons)
+        r = g.reach([d for l, d in n.succ if l != "exc"], blocked=thr_nodes)
+        if hdr_node in r:
+            ctx.fail(cons, g.loc(n), f"after `{n.text(60)}` the next header is parsed without the "
+                     f"buffer length having been compared with the header size {hsize}: a tail of "
+                     f"1..{hsize - 1} bytes of the following frame (read boundary inside its header) "
+                     f"fails to parse and the connection is closed as 'only garbage' instead of "
+                     f"waiting for the rest of the frame")
+
     # ------------------------------------------------------------------ R1
     ctx.rule("C05-R1", "every cycle of the framing loop shortens the buffer by a positive "
                        "amount, sets the wait flag, or leaves", floor=1)
@@ -371,6 +388,11 @@ def run(ctx: Ctx):
             and not qctor.args and not qctor.keywords):
         ctx.fail("chunk-queue:type", init.loc(), f"{QUEUE} must be an unbounded FIFO queue.Queue()")
 
+    from . import c14
+    ctx.include(c14.run, {"C14-R3"}, "C05-R4b",
+                "the reader worker is started once, stopped by close(), never joins itself, and its "
+                "blocking wait has a time-out", floor=6)
+
     # ------------------------------------------------------------------ R5
     ctx.rule("C05-R5", "summaries: Message.from_bytes parses the header first, outside any "
                        "try; the length field is masked to 24 bits", floor=2)
@@ -391,12 +413,22 @@ def run(ctx: Ctx):
     cons = "MessageHeader.from_bytes:length-mask"
     ctx.inst(cons)
     ok = False
-    for n in ast.walk(hfb.node):
-        if isinstance(n, ast.Assign) and any(A.dotted(t) == "length" for t in n.targets):
-            v = n.value
-            if isinstance(v, ast.BinOp) and isinstance(v.op, ast.BitAnd) \
-                    and model.try_fold(v.right, hfb.module) == 0x00ffffff:
-                ok = True
+    hcls = hfb.cls
+    hinit = hcls.methods.get("__init__") if hcls else None
+    ctor_calls = [n for n in ast.walk(hfb.node) if isinstance(n, ast.Call)
+                  and A.call_name(n) in ("MessageHeader", "cls")]
+    if hinit is not None and ctor_calls:
+        ip = [a.arg for a in hinit.node.args.args][1:]
+        bound = dict(zip(ip, [A.dotted(a) for a in ctor_calls[0].args]))
+        for k in ctor_calls[0].keywords:
+            bound[k.arg] = A.dotted(k.value)
+        lv = bound.get("length")
+        for n in ast.walk(hfb.node):
+            if isinstance(n, ast.Assign) and any(A.dotted(t) == lv for t in n.targets):
+                v = n.value
+                if isinstance(v, ast.BinOp) and isinstance(v.op, ast.BitAnd) \
+                        and model.try_fold(v.right, hfb.module) == 0x00ffffff:
+                    ok = True
     if not ok:
         ctx.fail(cons, hfb.loc(), "header length is not `word & 0x00ffffff` (non-negative 24-bit)")
 
